@@ -150,16 +150,30 @@ func (bl *blockLabels) Current() []string {
 
 		case *quoted:
 			tokens := labelObj.tokens
-			if len(tokens) == 3 &&
+			if len(tokens) >= 3 &&
 				tokens[0].Type == hclsyntax.TokenOQuote &&
-				tokens[1].Type == hclsyntax.TokenQuotedLit &&
-				tokens[2].Type == hclsyntax.TokenCQuote {
-				// Note that TokenQuotedLit may contain escape sequences.
-				labelString, diags := hclsyntax.ParseStringLiteralToken(tokens[1].asHCLSyntax())
-
-				// If parsing the string literal returns error diagnostics
-				// then we can just assume the label doesn't match, because it's invalid in some way.
-				if !diags.HasErrors() {
+				tokens[len(tokens)-1].Type == hclsyntax.TokenCQuote {
+				// The scanner splits a quoted string into several
+				// TokenQuotedLit tokens around "$" and "%" characters, so
+				// we must join the literal tokens. Note that TokenQuotedLit
+				// may contain escape sequences.
+				var labelString string
+				valid := true
+				for _, token := range tokens[1 : len(tokens)-1] {
+					if token.Type != hclsyntax.TokenQuotedLit {
+						valid = false
+						break
+					}
+					part, diags := hclsyntax.ParseStringLiteralToken(token.asHCLSyntax())
+					// If parsing the string literal returns error diagnostics
+					// then we can just assume the label doesn't match, because it's invalid in some way.
+					if diags.HasErrors() {
+						valid = false
+						break
+					}
+					labelString += part
+				}
+				if valid {
 					labelNames = append(labelNames, labelString)
 				}
 			} else if len(tokens) == 2 &&
